@@ -7,6 +7,7 @@
 #include <algorithm>
 #include <string>
 using Q = tbb::concurrent_priority_queue<int>;
+static std::string cls = "priority-order";
 static bool one(std::mt19937& rng, std::string& why) {
     Q q; std::vector<int> model, initial;
     int n0 = rng() % 9; for (int i = 0; i < n0; ++i) { int v = rng() % 100; q.push(v); model.push_back(v); initial.push_back(v); }
@@ -19,6 +20,16 @@ static bool one(std::mt19937& rng, std::string& why) {
     }
     for (int i = 0; i < nops; ++i) ops[i]->next.store(i + 1 < nops ? ops[i + 1] : nullptr);
     q.handle_operations(ops[0]);
+    {   // every operation is answered, pushes succeed, size() follows the successful operations
+        long expect = n0;
+        for (int i = 0; i < nops; ++i) {
+            auto st = ops[i]->status.load();
+            if (st != Q::SUCCEEDED && st != Q::FAILED) { why = "batch" + desc + ": operation " + std::to_string(i) + " was left without a final status"; cls = "status"; return true; }
+            if (ops[i]->type == Q::PUSH_OP && st != Q::SUCCEEDED) { why = "batch" + desc + ": a push did not succeed"; cls = "status"; return true; }
+            if (st == Q::SUCCEEDED) expect += ops[i]->type == Q::PUSH_OP ? 1 : -1;
+        }
+        if ((long)q.size() != expect) { why = "queue of " + std::to_string(n0) + " elements, batch" + desc + ": size() is " + std::to_string(q.size()) + " after the batch, the successful operations leave " + std::to_string(expect); cls = "size"; return true; }
+    }
     for (int i = 0; i < nops; ++i) if (ops[i]->type == Q::PUSH_OP) model.push_back(vals[i]);   // operations of one batch are mutually concurrent
     for (int i = 0; i < nops; ++i) {
         if (ops[i]->type == Q::POP_OP && ops[i]->status.load() == Q::SUCCEEDED) { auto it = std::find(model.begin(), model.end(), vals[i]); if (it == model.end()) { why = "batch" + desc + ": a pop returned " + std::to_string(vals[i]) + ", which was never in the queue"; return true; } model.erase(it); }
@@ -30,7 +41,7 @@ static bool one(std::mt19937& rng, std::string& why) {
         if (!rem.empty()) { int mx = *std::max_element(rem.begin(), rem.end());
             for (int pv : pops) if (pv < mx) { why = "queue holding"; for (int x : initial) why += " " + std::to_string(x); why += ", one aggregated batch" + desc + ": a pop returned " + std::to_string(pv) + " while " + std::to_string(mx) + ", queued before the batch, is still in the queue"; return true; } }
     }
-    std::vector<int> drained; int v; while (q.try_pop(v)) drained.push_back(v);
+    std::vector<int> drained; int v; while (drained.size() < model.size() + 8 && q.try_pop(v)) drained.push_back(v);   // bounded: a handler that forgets to remove what it hands out would never run empty
     std::sort(model.begin(), model.end(), std::greater<int>());
     if (drained != model) {
         why = "queue of " + std::to_string(n0) + " elements, one aggregated batch" + desc + ", then a serial drain returned";
@@ -41,8 +52,30 @@ static bool one(std::mt19937& rng, std::string& why) {
     for (auto* o : ops) delete o;
     return false;
 }
+// public API on one thread: push / try_pop / size / empty / clear / assign / copy assignment against a sorted model
+static bool api(std::mt19937& rng, std::string& why) {
+    cls = "api";
+    auto drain_is = [&](Q& q, std::vector<int> m, const std::string& what) {
+        std::sort(m.begin(), m.end(), std::greater<int>());
+        if (q.size() != m.size() || q.empty() != m.empty()) { why = what + ": size() is " + std::to_string(q.size()) + ", empty() is " + (q.empty() ? "true" : "false") + " with " + std::to_string(m.size()) + " elements queued"; return false; }
+        if (q.mark != q.data.size()) { why = what + ": mark is " + std::to_string(q.mark) + " with " + std::to_string(q.data.size()) + " elements in the array"; return false; }
+        std::vector<int> d; int v = -1; while (d.size() < m.size() + 8 && q.try_pop(v)) d.push_back(v);
+        if (d != m) { why = what + ": drained"; for (int x : d) why += " " + std::to_string(x); why += " instead of"; for (int x : m) why += " " + std::to_string(x); return false; }
+        return true;
+    };
+    std::vector<int> a(rng() % 7), b(rng() % 12); for (auto& x : a) x = rng() % 100; for (auto& x : b) x = rng() % 100;
+    { Q q; for (int x : a) q.push(x); for (int x : b) q.push(int(x)); std::vector<int> m = a; m.insert(m.end(), b.begin(), b.end()); if (!drain_is(q, m, "pushes, then a drain")) return true; }
+    { Q q; for (int x : a) q.push(x); q.assign(b.begin(), b.end()); if (!drain_is(q, b, "assign over a queue of " + std::to_string(a.size()) + " elements")) return true; }
+    { Q q; for (int x : a) q.push(x); Q c; for (int x : b) c.push(x); c = q; if (!drain_is(c, a, "copy assignment")) return true; }
+    { Q q; for (int x : a) q.push(x); q.clear(); if (q.size() != 0 || !q.empty() || q.mark != 0) { why = "clear(): size() " + std::to_string(q.size()) + ", mark " + std::to_string(q.mark); return true; } for (int x : b) q.push(x); if (!drain_is(q, b, "clear, then pushes")) return true; }
+    cls = "priority-order";
+    return false;
+}
 int main(int argc, char** argv) {
     std::mt19937 rng(1); std::string why;
-    for (int t = 0; t < 200000; ++t) if (one(rng, why)) { std::printf("REPRODUCED class=priority-order %s\n", why.c_str()); return 0; }
+    try { std::mt19937 r2(7); std::string w2; for (int t = 0; t < 50; ++t) api(r2, w2); } catch (const std::exception& e) { std::printf("REPRODUCED class=api an operation on a queue used by one thread threw %s\n", e.what()); return 0; }
+    cls = "priority-order";
+    for (int t = 0; t < 2000; ++t) if (api(rng, why)) { std::printf("REPRODUCED class=%s %s\n", cls.c_str(), why.c_str()); return 0; }
+    for (int t = 0; t < 200000; ++t) if (one(rng, why)) { std::printf("REPRODUCED class=%s %s\n", cls.c_str(), why.c_str()); return 0; }
     std::printf("NOT-REPRODUCED\n"); return 0;
 }
